@@ -678,6 +678,17 @@ pub fn run() {
       );
     }
   }
+  {
+    let t = source(2, 2, 1, 2, "C+", false, true, true, true, 7);
+    if let Ok(text) = render(&t, &STYLES[1]) {
+      run.sample(json!({"drawing": text, "class": "rules-as-columns:several-outputs+annotations+name+values+label:two-line-output-entry"}));
+    }
+    let c = Corruptions::new(&tier);
+    if c.total > 0 {
+      let (_, d) = c.case(c.total / 3);
+      run.sample(json!({"corruption": d}));
+    }
+  }
   run.set("states", json!(cnt.drawings.load(Ordering::Relaxed) + corr_total));
   run.set("transitions", json!(cnt.drawings.load(Ordering::Relaxed) + corr_done));
   run.set("traces_validated_against_impl", json!(cnt.compared.load(Ordering::Relaxed)));
